@@ -144,6 +144,23 @@ fn run_case(cx: &mut Ctx, c: &Case, seed: u64, emit: bool) -> Option<usize> {
         }
     };
     cx.bump("encoded");
+    // ---- the same run into a sink that accepts only a few bytes per write call (a legal io::Write): what is
+    //      written, counted and recorded (STREAMINFO frame sizes, seek-point byte offsets) must not depend on it
+    if cx.stats.get("encoded").copied().unwrap_or(0) % 3 == 0 {
+        let max = 1 + (seed as usize ^ c.frames) % 7;
+        SHORT_WRITE_MAX.with(|m| m.set(max));
+        let g = encode(c, &pcm);
+        SHORT_WRITE_MAX.with(|m| m.set(0));
+        cx.bump("short_write_sink_runs");
+        match g {
+            Ok(g) if g.file == f.file => {}
+            Ok(g) => {
+                let k = g.file.iter().zip(f.file.iter()).position(|(a, b)| a != b).unwrap_or(g.file.len().min(f.file.len()));
+                viol(cx, "short-write-sink-changes-file", &format!("a sink accepting at most {} bytes per write call receives a different finished file (first difference at byte {} of {}; metadata region {} bytes)", max, k, f.file.len(), f.meta0), c, "");
+            }
+            Err(e) => viol(cx, "short-write-sink-fails", &format!("a sink accepting at most {} bytes per write call makes the run fail: {}", max, e), c, ""),
+        }
+    }
     let file = &f.file;
     let flac = &file[c.prefix..];
     // ---- prefix untouched
